@@ -62,6 +62,19 @@ class WithClassVariables(sp.Expr):
         return self.scale * self.x + self.offset + len(self.tag)
 
 
+@unevaluated
+class TaggedPolynomial(sp.Expr):
+    """Polynomial unfolding with a non-SymPy attribute: as a summand of a PoolSum it makes `PoolSum.evaluate`
+    substitute index values through the ``_eval_subs`` that the decorator installs on such classes."""
+
+    x: Any
+    y: Any
+    tag: str = argument(default="t", sympify=False)
+
+    def evaluate(self) -> sp.Expr:
+        return self.x**2 + 3 * self.y + len(self.tag)
+
+
 def half(x):
     return x / 2
 
